@@ -75,6 +75,69 @@ def has_lazy(g, i):
     return bool(c and 'e' in c and walk(c['e']))
 
 
+def selected_guarded_deps(g, i):
+    """The cells that cell i reads inside a *selected* branch of an IF / IFERROR (as far as
+    this can be told without evaluating sub-expressions: a guard that is a constant or a
+    direct reference to a constant cell selects one branch; any other guard may select
+    either)."""
+    def known(e):
+        if e[0] == 'c':
+            return e[1]
+        if e[0] == 'ref' and e[1] in g.cells and g.cells[e[1]]['k'] == 'c':
+            return g.cells[e[1]]['v']
+        if e[0] == 'ref' and e[1] not in g.cells:
+            return {'k': 'z'}
+        return None
+
+    def ids(e):
+        return {d for d in G.expr_ids(g, e) if d in g.cells}
+
+    def walk(e):
+        k = e[0]
+        if k == 'fn' and e[1] == 'IF' and len(e[2]) >= 2:
+            v = known(e[2][0])
+            out = walk(e[2][0])
+            if v is not None and v.get('k') in ('b', 'n', 'z'):
+                truth = v.get('b') if v['k'] == 'b' else (v.get('n', 0) != 0 if v['k'] == 'n' else False)
+                sel = e[2][1] if truth else (e[2][2] if len(e[2]) > 2 else None)
+                return out | (ids(sel) if sel is not None else set())
+            if v is not None and v.get('k') == 'e':
+                return out
+            for a in e[2][1:]:
+                out |= ids(a)
+            return out
+        if k == 'fn' and e[1] == 'IFERROR' and len(e[2]) == 2:
+            v = known(e[2][0])
+            out = walk(e[2][0])
+            if v is not None and v.get('k') != 'e':
+                return out
+            return out | ids(e[2][1])
+        if k == 'fn':
+            out = set()
+            for a in e[2]:
+                out |= walk(a)
+            return out
+        if k == 'op':
+            return walk(e[2]) | walk(e[3])
+        if k == 'un':
+            return walk(e[2])
+        return set()
+    c = g.cells.get(i)
+    if not c or 'e' not in c:
+        return set()
+    return walk(c['e'])
+
+
+def cut_matters(g, i, exp=None):
+    """Whether some guard on the static cycles through cell i is selected towards them:
+    only then does it matter at which guard the library cuts, and only then can a false
+    mark on i be the recorded static-cut finding.  When every guarded reference inside the
+    component sits in an unselected branch, a cut at any guard resolves it."""
+    up = upstream(g, i)
+    comp = {x for x in up if i in upstream(g, x)}
+    return any(selected_guarded_deps(g, x) & comp for x in comp)
+
+
 def upstream(g, i):
     """The cells cell i reads, directly or not (itself included)."""
     seen, stack = set(), [i]
@@ -191,7 +254,7 @@ def main():
                 # whatever reads such a cell differs as a consequence of it
                 false_marks = {j for j, ej in exp.items()
                                if ej != circ and rec['obs'].get(j) == circ
-                               and any(has_lazy(g, x) for x in upstream(g, j))}
+                               and any(has_lazy(g, x) and cut_matters(g, x, exp) for x in upstream(g, j))}
                 # cells of an unavoidable cycle that do not show the mark: the mark was put on
                 # one of their inputs and consumed by an ISERROR / IFERROR / COUNT on the cycle
                 consumed = {j for j, ej in exp.items()
@@ -210,7 +273,9 @@ def main():
                         elif e != circ and o is not None and (upstream(g, i) & consumed):
                             # downstream of such a cell: an ordinary value instead of an error
                             sig = {'cat': 'cycle-cell-shows-its-formula-evaluated-on-the-mark'}
-                        elif e != circ and o == circ and has_lazy(g, i):
+                        # (a false mark is the recorded finding only where the place of the cut
+                        #  matters: some cell of the component reads another one by need)
+                        elif e != circ and o == circ and has_lazy(g, i) and cut_matters(g, i, exp):
                             sig = {'cat': 'cycle-through-unselected-branches-not-resolved'}
                         elif e != circ and (upstream(g, i) & false_marks):
                             sig = {'cat': 'cycle-through-unselected-branches-not-resolved'}
